@@ -18,6 +18,9 @@ def check(chk, thorough=False):
     chk.run('C10.d', 'sibling', 'every application receive step checks deliver/destination/not-fragment before touching the bundle', lambda ob: c10d(tree, ob), floor=3)
     chk.run('C10.f', 'R-ORDER', 'a bundle leaves the forwarding queue before it is processed, whatever the outcome (a failed forward is not processed again)', lambda ob: c10f(tree, ob), floor=1)
     chk.run('C10.g', 'R-PAIR', 'a fragment never continues down the receive chain as if it were the bundle: one re-injection site through recv_bundle (identity recorded there) (= C06.d)', lambda ob: _c06d(tree, ob), floor=3)
+    chk.run('C10.h', 'R-ORDER', 'a damaged bundle is dropped silently before anything is recorded or reported (= C08.b)', lambda ob: __import__('sa.props.c08', fromlist=['c08b']).c08b(tree, ob), floor=6)
+    chk.run('C10.i', 'R-TRUTH', 'identities and destinations are compared as they are on the wire: decoding keeps the text of every EID and every value (= C02.e)', lambda ob: __import__('sa.props.c02', fromlist=['c02e']).c02e(tree, ob), floor=20)
+    chk.run('C10.j', 'R-SCHEMA', 'a well-formed administrative record addressed to this node is delivered: the status-report handler does not take the record apart by a fixed item count (RFC 9171 6.1.1: four items, six for a report about a fragment)', lambda ob: c10j(tree, ob), floor=1)
     chk.run('C10.e', 'R-WHO', 'actions are recorded only through record_action (two sanctioned direct edits)', lambda ob: c10e(tree, ob), floor=3)
 
 
@@ -229,6 +232,20 @@ def c10f(tree, ob):
         ob.violate(AGENT, fv.qual, 'ctr = ' + (src(val) if val is not None else '?'), 'the bundle processed is not the one removed from the queue', p)
 
 
+def _followed_by_delete(call):
+    ''' the statement list that holds this call records 'delete' behind it '''
+    from ..core import parent, enclosing_stmt
+    st = enclosing_stmt(call)
+    par = parent(st)
+    for fld in ('body', 'orelse', 'finalbody'):
+        blk = getattr(par, fld, None)
+        if isinstance(blk, list) and st in blk:
+            after = blk[blk.index(st) + 1:]
+            return any(isinstance(c, ast.Call) and isinstance(c.func, ast.Attribute) and c.func.attr == 'record_action' and c.args and const_str(c.args[0]) == 'delete'
+                       for x in after for c in ast.walk(x))
+    return False
+
+
 def c10e(tree, ob):
     allowed = {('bp/util.py', 'BundleContainer.record_action'), ('bp/util.py', 'BundleContainer.__init__'),
                ('bp/app/bpsec.py', 'Bpsec._verify_bcb', 'del'), ('bp/app/bpsec.py', 'Bpsec._verify_bib', 'del'),
@@ -256,9 +273,33 @@ def c10e(tree, ob):
                         any(c.args and const_str(c.args[0]) == 'delete' for c in method_calls(enclosing(node, (ast.ExceptHandler,)), 'record_action')):
                     # a routing decision that was not carried out is withdrawn where the failure is recorded
                     ob.site(rel, node, 'decision withdrawn in the failure arm that records delete ({})'.format(qual))
+                elif kind == 'pop' and len(node.args) == 2 and const_str(node.args[0]) in ('deliver', 'forward') and _followed_by_delete(node):
+                    # the same withdrawal outside an exception arm: a refusal that records delete right behind it
+                    ob.site(rel, node, 'decision withdrawn where delete is recorded ({})'.format(qual))
                 elif kind == 'init' and isinstance(node.value, ast.Call) and dotted(node.value.func) == 'dict' and len(node.value.args) == 1 and \
                         (dotted(node.value.args[0]) or '').endswith('.actions'):
                     # a container derived from another one (a fragment) inherits a copy of its record
                     ob.site(rel, node, 'derived container inherits a copy of the record ({})'.format(qual))
                 else:
                     ob.violate(rel, qual, src(node)[:80], 'the per-bundle action record is edited outside record_action', node)
+
+
+
+def c10j(tree, ob):
+    ADMIN = 'bp/app/admin.py'
+    fv = FuncView(tree, ADMIN, 'Administrative._recv_status')
+    params = [a.arg for a in fv.func.args.args]
+    ob.require(len(params) >= 3, '_recv_status(self, ctr, msg)')
+    rec = params[2]
+    bad = []
+    for st in walk_local(fv.func):
+        if isinstance(st, ast.Assign) and any(isinstance(t, (ast.Tuple, ast.List)) and not any(isinstance(e, ast.Starred) for e in t.elts) for t in st.targets):
+            val = fv.value_at(st.value, st, depth=2, keep=(rec,))
+            if src(val) == rec:
+                bad.append(st)
+    if bad:
+        t = [t for t in bad[0].targets if isinstance(t, (ast.Tuple, ast.List))][0]
+        ob.violate(ADMIN, fv.qual, src(bad[0])[:70], 'the status report is unpacked into exactly {} items: a report about a fragment has six, the handler raises, and the administrative '
+                   'bundle addressed to this node is deleted instead of delivered'.format(len(t.elts)), bad[0])
+    else:
+        ob.site(ADMIN, fv.func, '_recv_status does not destructure the record by a fixed count')
